@@ -39,6 +39,14 @@ pub const F_ABSORBING: u32 = 1 << 10; // absorbing base states (merged state equ
 /// loose bound is the sum of the largest rewards of the remaining layers: the optimum is found late, the search keeps
 /// hundreds of open sub-problems, most of them invalidated by the cache before they are popped (long stale runs)
 pub const F_DECEPTIVE: u32 = 1 << 11;
+/// with `F_IRRELEVANCE`: `is_impacted_by` is *conservative* - besides the states with a relevant member, a pseudo-random half
+/// of the (layer, state) pairs whose members are all irrelevant also claim to be impacted (always legal: they are expanded with
+/// the neutral decision). The merge of such states can then equal a state that waits in the pool of the pooled diagram.
+pub const F_CONSERVATIVE: u32 = 1 << 12;
+/// "big-M" modelling style: a forbidden decision stays in the domain and costs `isize::MIN` (minus infinity), its successor is
+/// the dead state (empty set). Values saturate. Only used by the callback-protocol campaign (C12): the solver-level oracles
+/// are not consulted on such instances.
+pub const F_BIG_M: u32 = 1 << 13;
 
 #[derive(Clone, PartialEq, Eq, Hash, Debug)]
 pub struct TState {
@@ -69,6 +77,8 @@ pub struct TInst {
     pub g: Vec<Vec<Option<isize>>>,
     pub gmax: Vec<Option<isize>>,
     pub deceptive: bool,
+    pub conservative: bool,
+    pub big_m: bool,
     /// sum over the remaining layers of the largest reward of the layer
     pub suffix_max: Vec<isize>,
 }
@@ -105,7 +115,8 @@ impl TInst {
         let abs_state = if absorbing { Some(rng.usize(s)) } else { None };
         for li in 0..l {
             for si in 0..s {
-                if has_irr && rng.chance(1, 3) {
+                // (conservative variant: most (layer, base state) pairs are irrelevant, so that whole states often are)
+                if has_irr && rng.chance(if size & F_CONSERVATIVE != 0 { 2 } else { 1 }, 3) {
                     irr[li][si] = true;
                     next[li][si][0] = si as i8;
                     continue;
@@ -127,7 +138,7 @@ impl TInst {
             let mx = (0..s).flat_map(|si| (0..d).map(move |vi| (si, vi))).filter(|(si, vi)| next[li][*si][*vi] >= 0).map(|(si, vi)| cost[li][si][vi] + bon[li][si][vi]).max().unwrap_or(0);
             suffix_max[li] = suffix_max[li + 1] + mx.max(0);
         }
-        let mut inst = TInst { l, s, d, order, pos, next, cost, bon, irr, s0, v0, depth_in_state, has_irr, variant, gen: (seed, size), g: vec![], gmax: vec![], deceptive, suffix_max };
+        let mut inst = TInst { l, s, d, order, pos, next, cost, bon, irr, s0, v0, depth_in_state, has_irr, variant, gen: (seed, size), g: vec![], gmax: vec![], deceptive, conservative: size & F_CONSERVATIVE != 0, big_m: size & F_BIG_M != 0, suffix_max };
         inst.compute_oracle();
         inst
     }
@@ -207,8 +218,8 @@ impl Problem for TInst {
                 b = b.max(self.bon[li][si][v]);
             }
         }
-        let c = c.unwrap_or(NEG);
-        if li + 1 == self.l { c + st.bonus + b } else { c }
+        let c = c.unwrap_or(if self.big_m { isize::MIN } else { NEG });
+        if li + 1 == self.l { c.saturating_add(st.bonus + b) } else { c }
     }
     fn next_variable(&self, depth: usize, _next_layer: &mut dyn Iterator<Item = &TState>) -> Option<Variable> {
         if depth < self.l { Some(Variable(self.order[depth])) } else { None }
@@ -216,7 +227,7 @@ impl Problem for TInst {
     fn for_each_in_domain(&self, var: Variable, st: &TState, f: &mut dyn DecisionCallback) {
         let li = self.pos[var.0];
         for v in 0..self.d {
-            if Self::members(st.mask).any(|si| self.next[li][si][v] >= 0) {
+            if (self.big_m && st.mask != 0) || Self::members(st.mask).any(|si| self.next[li][si][v] >= 0) {
                 f.apply(Decision { variable: var, value: v as isize });
             }
         }
@@ -224,7 +235,7 @@ impl Problem for TInst {
     fn is_impacted_by(&self, var: Variable, st: &TState) -> bool {
         if !self.has_irr { return true; }
         let li = self.pos[var.0];
-        Self::members(st.mask).any(|si| !self.irr[li][si])
+        Self::members(st.mask).any(|si| !self.irr[li][si]) || (self.conservative && hash2(&(li, st.mask), &self.gen.0) % 2 == 0)
     }
 }
 
@@ -244,7 +255,7 @@ impl Relaxation for TRelax {
         TState { mask, bonus, depth }
     }
     fn relax(&self, _src: &TState, dst: &TState, merged: &TState, _d: Decision, cost: isize) -> isize {
-        cost + dst.bonus - merged.bonus
+        cost.saturating_add(dst.bonus - merged.bonus)
     }
     fn fast_upper_bound(&self, st: &TState) -> isize {
         match self.0.variant.rub {
